@@ -106,6 +106,23 @@ func main() {
 			}
 		}
 	}
+	if *doSync {
+		// files ADDED to git-bug packages (name: <pkg dir with __>__<file>.go)
+		addDir := filepath.Join(filepath.Dir(*shimDir), "shim", "addfiles")
+		if entries, err := os.ReadDir(addDir); err == nil {
+			for _, e := range entries {
+				if !strings.HasSuffix(e.Name(), ".go") {
+					continue
+				}
+				i := strings.LastIndex(e.Name(), "__")
+				if i < 0 {
+					continue
+				}
+				pkgDir := strings.ReplaceAll(e.Name()[:i], "__", "/")
+				replace[filepath.Join(*repo, pkgDir, e.Name()[i+2:])] = filepath.Join(addDir, e.Name())
+			}
+		}
+	}
 	for _, x := range flag.Args() {
 		kv := strings.SplitN(x, "=", 2)
 		if len(kv) != 2 {
